@@ -15,7 +15,7 @@
    the C++-shaped deserializer stays below |buffer| + tsz t, assumed < 2^64.
 
    Results: `cppw_walk_ser_refines`, `cppw_cw_body_effect`, `cppw_walk_des_refines`. *)
-From Verif Require Import Bits CPrims CPrimsThm CppPrims CppPrimsThm CppPrimsMoreThm.
+From Verif Require Import Bits CPrims CPrimsThm CppPrims CppPrimsThm CppPrimsMoreThm PrimsExt.
 From Verif Require Import Wire WireThm WireThmExt Walker Refine PrimsOn InstancesBase WalkerBound RefineSerBits RefineSerBase.
 From Verif Require Import InstancesC InstancesCpp InstancesTyped CppWalker CppWalkerThm CppWalkerBound.
 From Coq Require Import Lia ZifyBool ZifyNat ZifyN.
@@ -47,14 +47,14 @@ Proof. induction n as [|n IH]; [reflexivity|]. cbn [repeat all_zero forallb negb
 
 Lemma cppw_set_is_setUxx buf base cap off v :
   cppw_set buf base cap off v =
-    match cpp_set_uxx (cpp_span (window buf base cap) (length (bytes_of_bits (window buf base cap))) off)
+    match PrimsCur.cpp_set_uxx_cur (cpp_span (window buf base cap) (length (bytes_of_bits (window buf base cap))) off)
                       (N_of_bits v) (N.of_nat (length v)) with
     | Some (inl r) => Some (firstn base buf ++ bits_of_bytes r ++ skipn (base + cap) buf)
     | _ => None
     end.
 Proof.
   unfold cppw_set, cpp_set_bits. cbn [andb].
-  destruct (cpp_set_uxx _ _ _) as [[r|e]|]; reflexivity.
+  destruct (PrimsCur.cpp_set_uxx_cur _ _ _) as [[r|e]|]; reflexivity.
 Qed.
 
 Lemma cppw_zero_is_setZeros buf base cap off n :
@@ -200,7 +200,7 @@ Proof. vm_compute. split; [|split; [|split]]; reflexivity. Qed.
    (base, cap, off) stands for the bitspan {data_.data() = memory + base/8, data_.size() = cap/8, offset_bits_ = off}: the bytes
    behind bit `base` of the bit list are the bytes behind byte base/8 of the byte list, and the triples computed by cw_subspan /
    cd_subspan / cd_subspan_bytes are the spans computed by bitspan::subspan(bits_at, size_bits), any_bitspan::subspan() and
-   any_bitspan::subspan_bytes(n) of Prims/CppPrims.v (pointer = skipn, see C14_cpp_subspan_spec). *)
+   any_bitspan::subspan_bytes(n) (pointer = skipn; current, clamped text: Prims/PrimsExt.v, C14 subspan_clamped_spec). *)
 Lemma bytes_of_bits_n_skipn k : forall n l, bytes_of_bits_n n (skipn (8 * k) l) = skipn k (bytes_of_bits_n (k + n) l).
 Proof.
   induction k as [|k IH]; intros n l; [reflexivity|].
@@ -253,27 +253,29 @@ Proof.
   - lia.
 Qed.
 
-(* any_bitspan::subspan() and subspan_bytes(n) *)
+(* any_bitspan::subspan() and subspan_bytes(n) of the CURRENT source (/repo 939fc9d: pointer clamped to one past the end of the data;
+   Prims/PrimsExt.v `subspan_clamped`, `subspan_bytes_clamped`) *)
 Theorem cd_subspan_is_subspan buf base cap off n : base mod 8 = 0 ->
   span_ok (span_at buf base cap off) ->
-  (let '(b, c, o) := cd_subspan base cap off in subspan (span_at buf base cap off) 0 = span_at buf b c o) /\
-  (let '(b, c, o) := cd_subspan_bytes base cap off n in subspan_bytes (span_at buf base cap off) (N.of_nat n) = span_at buf b c o).
+  (let '(b, c, o) := cd_subspan base cap off in subspan_clamped (span_at buf base cap off) 0 = span_at buf b c o) /\
+  (let '(b, c, o) := cd_subspan_bytes base cap off n in subspan_bytes_clamped (span_at buf base cap off) (N.of_nat n) = span_at buf b c o).
 Proof.
   intros Hb Hok. pose proof Hok as (S1 & S2 & S3). cbn [sp_off sp_size sp_data span_at] in S1, S2, S3.
   assert (T64 : two64 = 18446744073709551616%N) by reflexivity.
-  assert (Hsub : subspan (span_at buf base cap off) 0 =
-                 span_at buf (base + 8 * (off / 8)) (8 * (if off / 8 <? cap / 8 then cap / 8 - off / 8 else 0)) (off mod 8)).
-  { unfold subspan, span_at. cbn [sp_off sp_size sp_data]. rewrite N.add_0_r, w64_small by lia.
-    f_equal.
-    - rewrite Refine.skipn_add. f_equal. lia.
-    - destruct (N.ltb_spec (N.of_nat off / 8) (N.of_nat (cap / 8))); destruct (Nat.ltb_spec (off / 8) (cap / 8)); lia.
+  set (ns := if off / 8 <? cap / 8 then cap / 8 - off / 8 else 0).
+  assert (Hsub : subspan_clamped (span_at buf base cap off) 0 = span_at buf (base + 8 * (cap / 8 - ns)) (8 * ns) (off mod 8)).
+  { unfold subspan_clamped, span_at. cbn [sp_off sp_size sp_data]. rewrite N.add_0_r, w64_small by lia.
+    assert (Hns : (if (N.of_nat off / 8 <? N.of_nat (cap / 8))%N then (N.of_nat (cap / 8) - N.of_nat off / 8)%N else 0%N) = N.of_nat ns).
+    { unfold ns. destruct (N.ltb_spec (N.of_nat off / 8) (N.of_nat (cap / 8))); destruct (Nat.ltb_spec (off / 8) (cap / 8)); lia. }
+    rewrite Hns. f_equal.
+    - rewrite Refine.skipn_add. f_equal. unfold ns. destruct (Nat.ltb_spec (off / 8) (cap / 8)); lia.
+    - lia.
     - lia. }
   split.
-  - unfold cd_subspan. exact Hsub.
-  - unfold cd_subspan_bytes, cd_subspan. cbv beta iota. unfold subspan_bytes. rewrite Hsub. unfold span_at.
+  - unfold cd_subspan. fold ns. exact Hsub.
+  - unfold cd_subspan_bytes, cd_subspan. fold ns. cbv beta iota. unfold subspan_bytes_clamped. rewrite Hsub. unfold span_at.
     cbn [sp_off sp_size sp_data]. f_equal.
-    set (a := if off / 8 <? cap / 8 then cap / 8 - off / 8 else 0).
-    destruct (N.ltb_spec (N.of_nat n) (N.of_nat (8 * a / 8))); destruct (Nat.ltb_spec n (8 * a / 8)); lia.
+    destruct (N.ltb_spec (N.of_nat n) (N.of_nat (8 * ns / 8))); destruct (Nat.ltb_spec n (8 * ns / 8)); lia.
 Qed.
 
 (* non-vacuity, sealed path: alignment padding (setZeros of 3 bits), a nested sealed structure and an array of sealed structures
